@@ -261,6 +261,23 @@ def check_dataset(md, workdir, tag, thorough=False):
                 b = strip(open(runs[nm]["files"][fn]).read()) if fn in runs[nm]["files"] else None
                 if a != b:
                     fails.append(("pipeline:memory_modes_differ", "%s differs between the default run and the %s run" % (fn, nm)))
+    # a USED output folder (seed C08_a4): an earlier run into the same folder kept its intermediate files (--keep_tmp; it
+    # saw no secondary alignment, so its `S.save_multimappers_<chr>` files hold the terminator only); a fresh --force run
+    # must give the outputs of the run into a fresh folder
+    first = run(md.build(), workdir, tag + "_used", extra=["--no_secondary", "--keep_tmp"])
+    again = run(md.build(), workdir, tag + "_used", extra=["--force"])
+    if first["rc"] != 0 or again["rc"] != 0:
+        fails.append(("pipeline:run_failed", "used-folder runs: rc=%s / %s %s" % (first["rc"], again["rc"], (again["log"] if again["rc"] else first["log"])[-600:])))
+    else:
+        info["used_folder_runs"] = 1
+        for fn in OUT_COMPARED:
+            a = strip(open(base["files"][fn]).read()) if fn in base["files"] else None
+            b = strip(open(again["files"][fn]).read()) if fn in again["files"] else None
+            if a != b:
+                fails.append(("pipeline:used_output_folder_changes_result",
+                              "%s of a --force run into a folder that holds the kept intermediate files of an earlier "
+                              "--no_secondary --keep_tmp run differs from the run into a fresh folder" % fn))
+                break
     # the clauses on every run (each mode has its own path to the resolver)
     retained_by_read = {}
     n_multi = 0
